@@ -5,6 +5,8 @@ import Driver.FileOps
 import Driver.Id3Util
 import Driver.Ogg
 import Driver.Detect
+import Driver.Info
+import Driver.Signal
 open Driver
 
 def dispatch (line : String) : String :=
@@ -18,6 +20,9 @@ def dispatch (line : String) : String :=
     | "uns" => unsOp a
     | "ogg" => oggOp a
     | "det" => detOp a
+    | "mpeg" => mpegOp a
+    | "sig" => sigOp a
+    | "flacinfo" => flacInfoOp a
     | "ping" => "pong"
     | _ => "bad-op"
 
